@@ -584,15 +584,15 @@ example : WF c11State ∧ TableWF c11Sync.table ∧
     c11Sync.table.nodes.find "p" =
       some { id := "p", status := .active, proxyAddr := "pp", adminAddr := "pa", endpoints := [("e", 2)] } ∧
     c11Sync.pending.find "p" = none ∧
-    suspectedBy c11Det (Facts.suspicionThreshold.getD 0) 3200000000 "p" = false ∧
-    suspectedBy c11Det (Facts.suspicionThreshold.getD 0) 3200000001 "p" = true :=
+    suspectedBy c11Det 20 3200000000 "p" = false ∧
+    suspectedBy c11Det 20 3200000001 "p" = true :=
   ⟨wf_apply (wf_init _ _) (.applyDigest _), C11_routing_table_is_map _ _, by decide, by decide, by decide, by decide⟩
 
 /-- before the tick `p` is the lookup candidate for `e`; the tick's notification takes it out of
 every lookup; heard again (a report at 4 s, tick at 4.1 s) it is a candidate again; never heard
 again, it is still remembered at `now + 60 s` and forgotten (with `OnExpired`) one nanosecond later -/
 example :
-    let θ := Facts.suspicionThreshold.getD 0
+    let θ := 20
     let r := livenessTick c11Det θ 3200000001 c11State
     let sy₁ := c11Sync.run r.2
     let r₂ := livenessTick (c11Det.reportWithTimestamp "p" 4000000000).1 θ 4100000000 r.1
